@@ -12,6 +12,12 @@ From Batchie Require Import Lib.Sexp.
 Import ListNotations.
 Open Scope Z_scope.
 
+(* what harness/gen_consts.py puts in the place of a function that harness/py2gal.py refused on this run:
+   `Definition src_f : translation_refused := Translation_refused.`  The generated file still compiles, and
+   every statement that applies src_f or compares it with a model is ill-typed - so exactly the link
+   lemmas about src_f (and what imports them) stop checking, nothing else. *)
+Inductive translation_refused : Set := Translation_refused.
+
 Fixpoint res_fold {S A : Type} (f : S -> A -> result S) (l : list A) (s : S) : result S :=
   match l with
   | [] => Ok s
